@@ -191,7 +191,41 @@ func (f *remoteWrapper) Config() proxyv1alpha1.RateLimitItemConfiguration {
 	return f.remoteConfig
 }
 
+// clampToGlobal keeps whatever the limiter server answered within [1, configured global limit]
+// (the minimum quota a server hands out is 1; a token bucket cannot run at rate 0)
+func (f *remoteWrapper) clampToGlobal(limitItem proxyv1alpha1.RateLimitItemConfiguration) proxyv1alpha1.RateLimitItemConfiguration {
+	clamp := func(v, max int32) int32 {
+		if v > max {
+			v = max
+		}
+		if v < 1 {
+			v = 1
+		}
+		return v
+	}
+	limitItem = *limitItem.DeepCopy()
+	local := f.flowControlCache.local.Config()
+	if limitItem.MaxRequestsInflight != nil && local.GlobalMaxRequestsInflight != nil {
+		limitItem.MaxRequestsInflight.Max = clamp(limitItem.MaxRequestsInflight.Max, local.GlobalMaxRequestsInflight.Max)
+	}
+	if limitItem.TokenBucket != nil && local.GlobalTokenBucket != nil {
+		limitItem.TokenBucket.QPS = clamp(limitItem.TokenBucket.QPS, local.GlobalTokenBucket.QPS)
+		limitItem.TokenBucket.Burst = clamp(limitItem.TokenBucket.Burst, local.GlobalTokenBucket.Burst)
+	}
+	return limitItem
+}
+
 func (f *remoteWrapper) Sync(limitItem proxyv1alpha1.RateLimitItemConfiguration) {
+	limitItem = f.clampToGlobal(limitItem)
+	if answered := flowcontrol.GetFlowControlTypeFromLimitItem(limitItem.LimitItemDetail); answered != f.flowControlCache.local.Type() {
+		// the answer is not for this kind of schema (it changed meanwhile, or the server is confused): keep what is in force
+		klog.Errorf("[remote limiter] cluster=%q name=%q ignore limit of type %v for a %v schema", f.flowControlCache.cluster, limitItem.Name, answered, f.flowControlCache.local.Type())
+		if f.GlobalCounterFlowControl == nil {
+			// nothing is in force yet: unpublish the wrapper, requests stay on the local limiter
+			f.flowControlCache.stopRemoteWrapper()
+		}
+		return
+	}
 	if reflect.DeepEqual(limitItem, f.remoteConfig) {
 		return
 	}
